@@ -9,15 +9,28 @@ package keeper
 // ---- C20: execution-layer parameter requests keep the bounds -----------------
 
 //@ func (Keeper).ProcessBridgeRequest
-//@ property C20
+//@ property C20 C05
+//@ let W = st.bitcoin.Withdrawals
 //@ requires inv20: st.bitcoin.Params.DepositTaxRate < 10000 && st.bitcoin.Params.MinDepositAmount >= 1000 && st.bitcoin.Params.ConfirmationNumber >= 1
+// C05, ASSUMPTION about the execution layer (the bridge contract numbers withdrawals consecutively and reports every id once):
+// the ids of the new withdrawal requests of a block are not yet known to the module and pairwise different.
+// The code does not test presence before the first Withdrawals.Set: without this assumption the edge absent -> PENDING of the
+// status machine cannot be discharged (wd_edge: see contracts_verif_withdrawal.go).
+//@ requires fresh_ids: forall(j, 0, len(reqs.Withdraws), !has(W, reqs.Withdraws[j].Id))
+//@ requires distinct_ids: forall(j, 0, len(reqs.Withdraws), forall(i, 0, j, reqs.Withdraws[i].Id != reqs.Withdraws[j].Id))
+//@ writesite bitcoin.Withdrawals edge: wd_edge(has(st.bitcoin.Withdrawals, key), st.bitcoin.Withdrawals[key].Status, val.Status)
 //@ ensures inv20: err == nil ==> st.bitcoin.Params.DepositTaxRate < 10000 && st.bitcoin.Params.MinDepositAmount >= 1000 && st.bitcoin.Params.ConfirmationNumber >= 1
-//@ loop 0 invariant true
+//@ ensures network_kept: err == nil ==> st.bitcoin.Params.NetworkName == old(st.bitcoin.Params.NetworkName)
+//@ loop 0 invariant idx: -1 <= rangeindex && rangeindex < len(reqs.Withdraws)
+//@ loop 0 invariant fresh_rest: forall(j, rangeindex + 1, len(reqs.Withdraws), !has(W, reqs.Withdraws[j].Id))
 //@ loop 1 invariant true
 //@ loop 2 invariant true
 //@ loop 3 invariant rate: param.DepositTaxRate < 10000
+//@ loop 3 invariant net3: param.NetworkName == old(st.bitcoin.Params.NetworkName)
 //@ loop 4 invariant depth: param.ConfirmationNumber >= 1
+//@ loop 4 invariant net4: param.NetworkName == old(st.bitcoin.Params.NetworkName)
 //@ loop 5 invariant min: param.MinDepositAmount >= 1000
+//@ loop 5 invariant net5: param.NetworkName == old(st.bitcoin.Params.NetworkName)
 //@ modifies st.bitcoin.Params, st.bitcoin.Withdrawals, st.bitcoin.EthTxQueue
 
 // ---- voted handlers ---------------------------------------------------------------
